@@ -194,8 +194,9 @@ def run(rep, tier):
         out = {}
         for b, i, e in fn.all_events():
             heap = None
-            if e.get("k") == "write" and P(e["lhs"]) == "heap":
-                m = re.search(r"thread_heap_(\w+)_", T(e["rhs"]))
+            if e.get("k") in ("write", "decl") and (e.get("rhs") if e.get("k") == "write" else e.get("init")) is not None:
+                # the address of one of the heaps is taken (whatever the pointer variable is called)
+                m = re.match(r"^&\s*\(?this->thread_heap_(\w+)_\)?$", T(strip(e.get("rhs") if e.get("k") == "write" else e.get("init"))))
                 heap = m.group(1) if m else None
             if e.get("k") == "call" and callee_short(e) == "push_back":
                 m = re.search(r"this->thread_heap_(\w+)_$", P(e.get("recv")))
